@@ -38,6 +38,17 @@ Theorem C02_equal_states_equal_backoffs : forall N T M, (2 <= N)%nat -> forall s
   s_bo s1 = s_bo s2 /\ forall w, full_score N T s1 w = full_score N T s2 w.
 Proof. intros N T M HN s1 h1 s2 h2 V1 V2 Hw. eapply equal_states_equal_backoffs; eassumption. Qed.
 
+(* recombination is safe: two histories whose (valid) states have the same words are indistinguishable by any continuation --
+   every later probability, matched length, flag and state is the same *)
+Theorem C02_recombination_safe : forall N T M, (2 <= N)%nat -> forall s1 h1 s2 h2,
+  valid N T M s1 h1 -> valid N T M s2 h2 -> s_words s1 = s_words s2 ->
+  forall ws, score_seq N T s1 ws = score_seq N T s2 ws.
+Proof.
+  intros N T M HN s1 h1 s2 h2 V1 V2 Hw ws.
+  destruct (equal_states_equal_backoffs N HN T M s1 h1 s2 h2 V1 V2 Hw) as [Hb _].
+  destruct s1, s2. cbn in *. subst. reflexivity.
+Qed.
+
 (* State comparison, ordering and hashing are mutually consistent (model of lm/state.hh: length first, then memcmp
    over the little-endian bytes of the words; hash over exactly those bytes): Compare = 0 iff ==, Compare < 0 iff <,
    equal states have equal hash input, and exactly one of <, ==, > holds. *)
